@@ -8,6 +8,7 @@ import (
 	"crypto/cipher"
 	"crypto/ed25519"
 	"fmt"
+	"sort"
 	"strings"
 
 	"golang.org/x/crypto/chacha20"
@@ -157,8 +158,13 @@ func overhead(f string) int {
 	return 16
 }
 
-func genOne(g *hx.Gen) string {
+func genOne(g *hx.Gen, inSession bool) string {
 	r := g.R
+	var feat []string // features of this case for the pair.<a>+<b> counters
+	stat := func(name string) { g.Stat(name); feat = append(feat, name) }
+	if inSession {
+		feat = append(feat, "session")
+	}
 	f := hx.Pick(r, fns)
 	c := call{f: f, key: r.Bytes(32)}
 	switch f {
@@ -224,15 +230,16 @@ func genOne(g *hx.Gen) string {
 	switch r.Intn(10) {
 	case 0, 1:
 		delta = 0
-		g.Stat("delta-0")
+		stat("delta-0")
 	case 2:
 		delta = r.PickInt(-1, 1, -srcLen, srcLen, srcLen-1, -srcLen+1, outLen, -outLen, srcLen-16, srcLen-15, srcLen-1-16)
-		g.Stat("delta-edge")
+		stat("delta-edge")
 	case 3:
 		delta = r.PickInt(-150, 230)
-		g.Stat("delta-far")
+		stat("delta-far")
 	default:
 		delta = r.Range(-64, 64)
+		stat("delta-near(-64..64)")
 	}
 	outOff := srcOff + delta
 	// dst = arena[dOff : dOff+dLen : dOff+dCap]; the output region starts at dOff+dLen (append-style) or dOff (xor-style)
@@ -242,15 +249,16 @@ func genOne(g *hx.Gen) string {
 		switch r.Intn(8) {
 		case 0:
 			dLen = outLen + r.Range(1, 20) // longer dst: only dst[:len(src)] may change
-			g.Stat("dst-longer")
+			stat("dst-longer")
 		case 1:
 			dLen = outLen - r.Range(1, 3) // shorter dst → panic (unless src is empty)
 			if dLen < 0 {
 				dLen = 0
 			}
-			g.Stat("dst-shorter")
+			stat("dst-shorter")
 		default:
 			dLen = outLen
+			stat("dst-exact-len")
 		}
 		dCap = dLen
 	} else {
@@ -262,15 +270,19 @@ func genOne(g *hx.Gen) string {
 			if dCap < dLen {
 				dCap = dLen
 			}
-			g.Stat("cap-short")
+			stat("cap-short")
 		case 1:
 			dCap = dLen
-			g.Stat("cap-none")
+			stat("cap-none")
 		case 2:
 			dCap = dLen + outLen + r.Range(1, 40)
-			g.Stat("cap-large")
+			stat("cap-large")
 		default:
 			dCap = dLen + outLen
+			stat("cap-exact")
+		}
+		if dLen > 0 {
+			stat("dst-has-prefix")
 		}
 	}
 	if dOff < 0 || dOff+dCap > arenaLen || dOff+dLen > arenaLen {
@@ -283,7 +295,7 @@ func genOne(g *hx.Gen) string {
 		switch r.Intn(5) {
 		case 0:
 			adOff = outOff + r.Range(-adLen, outLen) // around the output region
-			g.Stat("ad-near-out")
+			stat("ad-near-out")
 		case 1:
 			adOff = srcOff + r.Range(-adLen, srcLen)
 		default:
@@ -303,7 +315,7 @@ func genOne(g *hx.Gen) string {
 			copy(arena[no:], ad)
 			// the copy may have clobbered nothing relevant: it is outside the ciphertext by construction
 			adOff = no
-			g.Stat("ad-near-out")
+			stat("ad-near-out")
 		}
 	}
 	// oracle: the same call on separate buffers
@@ -335,21 +347,68 @@ func genOne(g *hx.Gen) string {
 	if (f == "open" || f == "openx" || f == "opengen") && dCap >= dLen+outLen && outLen > 0 &&
 		outOff < srcOff+srcLen && srcOff+srcLen-16 < outOff+outLen {
 		cls = "tagov"
-		g.Stat("open-out-overlaps-tag")
+		stat("open-out-overlaps-tag")
 	}
-	g.Stat("f-" + f)
+	stat("f-" + f)
+	switch {
+	case srcLen == 0:
+		stat("src-empty")
+	case srcLen < 16:
+		stat("src<16")
+	case srcLen%64 == 0:
+		stat("src=64k")
+	}
+	if adLen > 0 {
+		stat("ad-nonempty")
+	}
+	fns17[f] = true
+	statPairs(g, feat)
 	return fmt.Sprintf("ov f=%s cls=%s arena=%s src=%d,%d dst=%d,%d,%d ad=%d,%d key=%s nonce=%s pre=%d ctr=%d sector=%d out=%s",
 		f, cls, hx.Hex(arena), srcOff, srcLen, dOff, dLen, dCap, adOff, adLen, hx.Hex(c.key), hx.Hex(c.nonce), c.pre, c.ctr, c.sector, hx.Hex(oracle))
 }
 
+var fns17 = map[string]bool{}
+
+func statPairs(g *hx.Gen, feat []string) {
+	sort.Strings(feat)
+	for i := range feat {
+		for j := i + 1; j < len(feat); j++ {
+			g.Stat("pair." + feat[i] + "+" + feat[j])
+		}
+	}
+}
+
+// genAlias drives internal/alias directly (through the re-export hook): every pair of sub-slices
+// (offset 0..6, length 0..4, with and without spare capacity) of one 12-byte array — the complete table
+func genAlias(g *hx.Gen) {
+	for xo := 0; xo <= 6; xo++ {
+		for xl := 0; xl <= 4; xl++ {
+			for yo := 0; yo <= 6; yo++ {
+				for yl := 0; yl <= 4; yl++ {
+					g.Emit("alias x=%d,%d y=%d,%d capx=%d capy=%d", xo, xl, yo, yl, g.R.Intn(2), g.R.Intn(2))
+				}
+			}
+		}
+	}
+	g.StatN("table.alias-grid=1225/1225", 1)
+}
+
 func gen(g *hx.Gen) {
-	n := g.Count(8000, 120000)
+	genAlias(g)
+	defer func() {
+		want := map[string]bool{}
+		for _, f := range fns {
+			want[f] = true
+		}
+		g.StatN(fmt.Sprintf("table.function-switch=%d/%d", len(fns17), len(want)), 1)
+	}()
+	n := g.Count(6500, 120000)
 	for i := 0; i < n; i++ {
 		if g.R.Chance(1, 8) {
 			// a session: 2..3 calls on the SAME arena, key and nonce arrays, contents replaced in place
 			var subs []string
 			for j := g.R.Range(2, 3); j > 0; j-- {
-				if s := genOne(g); s != "" {
+				if s := genOne(g, true); s != "" {
 					subs = append(subs, s)
 				}
 			}
@@ -357,7 +416,7 @@ func gen(g *hx.Gen) {
 				g.Stat("session")
 				g.Emit("ovs %s", strings.Join(subs, " ## "))
 			}
-		} else if s := genOne(g); s != "" {
+		} else if s := genOne(g, false); s != "" {
 			g.Emit("%s", s)
 		}
 	}
@@ -380,6 +439,24 @@ func newCallerMem() *callerMem {
 
 func execOne(line string, m *callerMem) string {
 	o := hx.Parse(line)
+	if o.Cmd == "alias" {
+		arr := make([]byte, 12)
+		x, y := o.Ints("x"), o.Ints("y")
+		sl := func(v []int, spare int) []byte {
+			if spare == 1 {
+				return arr[v[0] : v[0]+v[1]]
+			}
+			return arr[v[0] : v[0]+v[1] : v[0]+v[1]]
+		}
+		xs, ys := sl(x, o.Int("capx")), sl(y, o.Int("capy"))
+		b := func(v bool) int {
+			if v {
+				return 1
+			}
+			return 0
+		}
+		return fmt.Sprintf("any=%d inexact=%d", b(chacha20poly1305.VerifC53AnyOverlap(xs, ys)), b(chacha20poly1305.VerifC53InexactOverlap(xs, ys)))
+	}
 	arena := m.arena
 	copy(arena, o.Hex("arena"))
 	s := o.Ints("src")
